@@ -18,7 +18,6 @@ type c04Run struct {
 	outbox     []Transaction
 }
 
-
 func (r *c04Run) handshakeValid() bool {
 	h := r.hs
 	return h[0] == 'T' && h[1] == 'R' && h[2] == 'T' && h[3] == 'P' && h[4] == 'H' && h[5] == 'O' && h[6] == 'T' && h[7] == 'L'
@@ -51,4 +50,3 @@ func (r *c04Run) sentToOthers() int {
 }
 
 var c04HandshakeReply = []byte{'T', 'R', 'T', 'P', 0, 0, 0, 0}
-
